@@ -144,8 +144,13 @@ def make_inputs(ctx, base):
         for g in range(3):
             for e in range(3):
                 f.write('chr2\ts\texon\t%d\t%d\t.\t-\t.\tgene_id "G%d"; transcript_id "T%d";\n' % (100 * g + 10 * e + 1, 100 * g + 10 * e + 8, g, g))
+    cds = os.path.join(base, "c.gtf")           # nothing to infer: no exon lines
+    with open(cds, "w") as f:
+        for g in range(2):
+            f.write('chr3\ts\tCDS\t%d\t%d\t.\t+\t0\tgene_id "H%d"; transcript_id "U%d";\n' % (50 * g + 1, 50 * g + 30, g, g))
     ins["gff"] = gff
     ins["gtf"] = gtf
+    ins["gtf_cds"] = cds
     for name, fn in (("gff_real", "FBgn0031208.gff"), ("gtf_real", "FBgn0031208.gtf")):
         p = os.path.join(data, fn)
         if os.path.exists(p):
@@ -267,7 +272,7 @@ def run(ctx):
     for k, v in solo.items():
         if v["final"] or v["rc"] != 0:
             ctx.violation({"input": k}, "solitary_run_leaves_files", {"listing": v["final"], "rc": v["rc"]})
-    kinds_menu = [("gff", "gtf"), ("gtf", "gff"), ("gtf", "gtf"), ("gff", "gff")]
+    kinds_menu = [("gff", "gtf"), ("gtf", "gff"), ("gtf", "gtf"), ("gff", "gff"), ("gtf_cds", "gtf"), ("gff", "gtf_cds")]
     if "gff_real" in inputs:
         kinds_menu += [("gff_real", "gtf_real"), ("gtf_real", "gtf")]
     work = []
